@@ -211,6 +211,74 @@ fn run_inj(base: Instant, c: &InjCase) -> InjOut {
     }
 }
 
+/// The datagram with emission index `after` is damaged in transit: the original never arrives, a
+/// mutated copy does (at the same instant). Everything else is delivered. The honest peers must
+/// recover by retransmission: workload complete, nobody lost, no panic, integrity.
+fn run_replace(base: Instant, c: &InjCase) -> InjOut {
+    let r = guarded(|| {
+        let cfg = cfg_by_name(c.cfg);
+        let after = c.after;
+        let mut p = crate::scen::std_pair_pre(base, &cfg, c.wl, ReadMode::default(), |w| {
+            w.fates.insert(after, Fate::Drop);
+        });
+        let mut injected = false;
+        loop {
+            if !injected {
+                let orig = p.w.recs.iter().find_map(|r| match r {
+                    Rec::Emit { idx, data, src, dst, .. } if *idx == c.after => Some((data.clone(), *src, *dst)),
+                    _ => None,
+                });
+                if let Some((data, src, dst)) = orig {
+                    injected = true;
+                    if let Some(m) = mutate(&data, &c.kind) {
+                        let lat = p.w.latency;
+                        p.w.inject(src, dst, m, lat);
+                    }
+                }
+            }
+            if workload_done(&p) && injected && !p.w.net.iter().any(|f| f.injected) {
+                break;
+            }
+            if p.w.steps > 60_000 {
+                break;
+            }
+            match p.w.next_event() {
+                None => break,
+                Some((at, _)) if at > HZ => break,
+                _ => {}
+            }
+            p.w.step();
+        }
+        (p, injected)
+    });
+    match r {
+        Err(e) => InjOut { events: 0, conn_emit: vec![], established_at_injection: false, viol: vec![("panic".into(), format!("panic: {e}"))], injected: true },
+        Ok((p, injected)) => {
+            if dumping() {
+                print!("{}", crate::trace::dump(&p.w));
+            }
+            let mut v = vec![];
+            for (s, w) in integrity(&p) {
+                v.push((format!("integrity:{s}"), w));
+            }
+            if !workload_done(&p) {
+                for (s, w) in completion(&p) {
+                    v.push((format!("no-recovery-from-damaged-datagram:{s}"), format!("{w}; {}", crate::scen::diagnose(&p))));
+                }
+            } else {
+                for (s, w) in completion(&p) {
+                    v.push((format!("complete:{s}"), w));
+                }
+            }
+            let servers = p.w.nodes[SERVER].conns.len() + p.w.nodes[SERVER].dead.len();
+            if servers > 1 {
+                v.push(("damaged-datagram-created-second-connection".into(), format!("the server ended up with {servers} connections for one client attempt")));
+            }
+            InjOut { events: p.w.outcome_hash(), conn_emit: vec![], established_at_injection: false, viol: v, injected }
+        }
+    }
+}
+
 /// Stateless reset / VN / Retry probes against the client or the server
 #[derive(Clone, Debug)]
 struct ProbeCase {
@@ -510,7 +578,7 @@ pub fn main(args: &Args) -> ! {
     let mut rep = Report::new("C04", args, "fault_enumeration");
     let thorough = args.tier == Tier::Thorough;
     let dl = deadline(if thorough { 1200 } else { 45 });
-    rep.rule = "E3 over the real endpoints: (a) every emitted datagram of each baseline re-delivered after each delay of a delay list (and all pairs in thorough) with forced key updates, oracle: per frame type frames processed <= frames decoded on the wire; (b) every emitted datagram x every mutation (every bit of the first byte, bit flips in the leading 24 (thorough: 32, all bits) and trailing 16 bytes, truncations around every header boundary, extensions) injected after the original, differential oracle against the uninjected run; (c) stateless-reset, Version Negotiation and Retry probes at every step index. Non-trivial = the injected/duplicated datagram was actually delivered; distinct = distinct (kind, index, mutation) tuples by hash of the resulting trace.".into();
+    rep.rule = "E3 over the real endpoints: (a) every emitted datagram of each baseline re-delivered after each delay of a delay list (and all pairs in thorough) with forced key updates, oracle: per frame type frames processed <= frames decoded on the wire; (b) every emitted datagram x every mutation (every bit of the first byte, bit flips in the leading 24 (thorough: 32, all bits) and trailing 16 bytes, truncations around every header boundary, extensions) injected after the original, differential oracle against the uninjected run; (b2) each early datagram damaged in transit (original lost, mutated copy arrives): the peers must recover and complete; (c) stateless-reset, Version Negotiation and Retry probes at every step index. Non-trivial = the injected/duplicated datagram was actually delivered; distinct = distinct (kind, index, mutation) tuples by hash of the resulting trace.".into();
 
     // (a) duplicates
     let scripts: Vec<(&'static str, Vec<(u64, Op)>)> = vec![
@@ -628,6 +696,39 @@ pub fn main(args: &Args) -> ! {
                 replay: json!({"check":"c04","kind":"inj","cfg":c.cfg,"after":c.after,"mutation":format!("{:?}",c.kind)}),
             });
         }
+    }
+    // (b2) damaged instead of duplicated: the original of each early datagram is lost and only a
+    // mutated copy arrives; the peers must recover
+    {
+        let mut cases2 = vec![];
+        for cfg in ["default", "retry"] {
+            for after in 0..(if thorough { 24 } else { 10 }) {
+                for m in muts.iter().filter(|m| match m {
+                    InjKind::Flip { pos, .. } => thorough || *pos == 0 || *pos == -1 || *pos == 1 || *pos == 6,
+                    InjKind::Truncate { len } => thorough || [0usize, 20, 26, 600].contains(len),
+                    _ => true,
+                }) {
+                    cases2.push(InjCase { cfg, wl: Wl::W1, after, kind: m.clone() });
+                }
+            }
+        }
+        let n2 = cases2.len();
+        let (res2, capped2) = e3(cases2, dl, |c| run_replace(base, c));
+        rep.exhaustive &= !capped2;
+        for (c, o) in &res2 {
+            rep.evaluations += 1;
+            let mut h = std::collections::hash_map::DefaultHasher::new();
+            ("replace", c.cfg, c.after, format!("{:?}", c.kind)).hash(&mut h);
+            rep.distinct.insert(h.finish());
+            for (sig, what) in &o.viol {
+                rep.violation(Violation {
+                    signature: sig.clone(),
+                    what: format!("cfg={} datagram #{} damaged in transit ({:?}), original lost: {what}", c.cfg, c.after, c.kind),
+                    replay: json!({"check":"c04","kind":"replace","cfg":c.cfg,"after":c.after,"mutation":format!("{:?}",c.kind)}),
+                });
+            }
+        }
+        rep.part("damaged_in_transit", json!({"cases": n2, "executed": res2.len(), "capped": capped2}));
     }
     rep.part("corruptions", json!({"cases": ninj, "executed": res.len(), "mutations_per_datagram": muts.len(), "strict_wire_comparisons": strict, "capped": capped}));
     rep.sample(json!({"kind":"inj","cfg":"default","after":12,"mutation":"Flip{pos:-3,mask:0x80}","meaning":"a copy of datagram #12 with one bit of its authentication tag flipped is delivered right after the original"}));
@@ -810,6 +911,13 @@ fn replay(args: &Args) -> ! {
             println!("==== with injection ====");
             let o = run_inj(base, &InjCase { cfg: cfgname, wl: Wl::W1, after: r["after"].as_u64().unwrap(), kind });
             println!("events equal={} conn_emit equal={} established_at_injection={} viol={:?}", b.events == o.events, same_prefix(&b.conn_emit, &o.conn_emit), o.established_at_injection, o.viol);
+        }
+        "replace" => {
+            DUMP.store(true, std::sync::atomic::Ordering::Relaxed);
+            let cfgname: &'static str = Box::leak(r["cfg"].as_str().unwrap().to_string().into_boxed_str());
+            let kind = parse_inj(r["mutation"].as_str().unwrap());
+            let o = run_replace(base, &InjCase { cfg: cfgname, wl: Wl::W1, after: r["after"].as_u64().unwrap(), kind });
+            println!("viol={:?}", o.viol);
         }
         "probe" => {
             DUMP.store(true, std::sync::atomic::Ordering::Relaxed);
